@@ -242,6 +242,12 @@ def _gen_case(rng, tier, g):
         # so many chunks happens)
         maxrows = rng.choice([18, 24, 40])
     tables = _tables(rng, op, maxrows, minrows=maxrows - 6 if big else 0)
+    if len(tables) == 2 and rng.random() < 0.6:
+        # the two tables have rows in common (an intersection that is not
+        # empty, a complement that removes something)
+        for r_ in list(tables[0][1:]):
+            if rng.random() < 0.4 and len(tables[1]) <= maxrows:
+                tables[1].insert(rng.randint(1, len(tables[1])), list(r_))
     n = max(len(t) - 1 for t in tables)
     if rng.random() < 0.55:
         # ---- knob sweep ------------------------------------------------
